@@ -476,6 +476,11 @@ func scenarioFault(t *traceWriter, rng *rand.Rand) {
 			s.update(l.id, 0, signNote(cpText(l.origin, uint64(k.setup), tr.root(uint64(k.setup))), key.signer), [][]byte{}, "class=setup")
 		}
 		cp := signNote(cpText(l.origin, k.size, k.branch.root(k.size)), key.signer)
+		if k.name == "refresh" || k.name == "zeroRefresh" {
+			// the refreshed note carries another witness's line, so that what the witness would cosign now differs in
+			// bytes from what it holds (with an identical note and the same second the two coincide)
+			cp = signNote(cpText(l.origin, k.size, k.branch.root(k.size)), key.signer, keyB.signer)
+		}
 		if k.name == "badSig" {
 			cp = signNote(cpText(l.origin, k.size, k.branch.root(k.size)), forgedSigner{key.signer.Name(), key.signer.KeyHash(), rng})
 		}
